@@ -94,7 +94,7 @@ func (e *C03) Cases(tier string, _ int64) int {
 }
 
 func (e *C03) Floors(tier string) map[string]int {
-	return map[string]int{"C03.mixed-cases": 1000, "C03.multi-deleteset-cases": 300, "C03.calls": 20000}
+	return map[string]int{"C03.mixed-cases": 1000, "C03.multi-deleteset-cases": 300, "C03.calls": 20000, "C03.cases-with-untargeted-nodes": 1500}
 }
 
 func (e *C03) Run(ctx *core.Ctx, idx int) {
